@@ -139,6 +139,7 @@ def make_parser(it, ctx, tag='p'):
                 o = ForeignObj('%s.%s' % (tag, nm))
             p.fields[nm] = SOpt(z3.Bool('%s.%s.present' % (tag, nm)), o)
     p.tag = tag
+    p.initial_fields = dict(p.fields)
     return p
 
 
